@@ -32,7 +32,7 @@ impl CssString {
                             }
                             Some(&c) => {
                                 if let Some(digit) = c.to_digit(16) {
-                                    val = val * 10 + digit;
+                                    val = val.saturating_mul(10).saturating_add(digit);
                                     got_num = true;
                                     iter.next();
                                 } else if !got_num {
